@@ -7,7 +7,7 @@ PROPS = {}
 # Properties not claimed, with the reason (anything neither in PROPS nor here gets a default text).
 NOT_APPLICABLE = {}
 # Commits in /repo that add verif-tagged hook files.
-HOOK_COMMITS = ["d8eee8ea"]
+HOOK_COMMITS = ["d8eee8ea", "eabb9768"]
 
 for _f in sorted(glob.glob(os.path.join(os.path.dirname(os.path.abspath(__file__)), "propsd", "*.py"))):
     _ns = runpy.run_path(_f)
